@@ -35,20 +35,23 @@ Inductive tout :=
    whether the application would accept the channel open *)
 Inductive packet :=
   | PAuth (m : amsg)
-  | PConn (ptype chanid : Z) (app_ok : bool).
+  | PConn (ptype chanid : Z) (app_ok kind_ok : bool).
+(* kind_ok: the first string of the payload (the channel kind _ensure_authed reads to build its
+   refusal) is valid UTF-8 *)
 
 Definition ptype_of (p : packet) : Z :=
   match p with
-  | PAuth (Msg5 _) => 5 | PAuth (Msg50 _ _ _) => 50 | PAuth Msg61 => 61 | PAuth Msg66 => 66
-  | PConn t _ _ => t
+  | PAuth (Msg5 _) => gen_msg_service_request | PAuth (Msg50 _ _ _) => gen_msg_userauth_request
+  | PAuth Msg61 => gen_msg_userauth_info_response | PAuth Msg66 => gen_msg_userauth_gssapi_mic
+  | PConn t _ _ _ => t
   end.
 
 Definition zmem (x : Z) (l : list Z) : bool := existsb (Z.eqb x) l.
 
 (* Transport._handler_table restricted to 80..100, and Transport._channel_handler_table *)
-Definition handler_types : list Z := [80; 81; 82; 90; 91; 92].
-Definition channel_types : list Z := [93; 94; 95; 96; 97; 98; 99; 100].
-Definition highest_userauth : Z := 79.        (* HIGHEST_USERAUTH_MESSAGE_ID *)
+Definition handler_types : list Z := gen_handler_types.     (* all keys of Transport._handler_table *)
+Definition channel_types : list Z := gen_channel_types.
+Definition highest_userauth : Z := gen_highest_userauth.        (* HIGHEST_USERAUTH_MESSAGE_ID *)
 
 (* Transport.is_authenticated: active and auth_handler is not None and
    auth_handler.is_authenticated() -- GssapiWithMicAuthHandler has no such method *)
@@ -58,15 +61,18 @@ Definition is_authenticated (ts : tstate) : result bool :=
   else Ok (a_authed (t_auth ts)).
 
 (* Transport._ensure_authed: None = go ahead, Some reply = refuse with this message *)
-Definition ensure_authed (ts : tstate) (ptype chanid : Z) : result (option (result (list Z))) :=
+Definition ensure_authed (ts : tstate) (ptype chanid : Z) (kind_ok : bool) : result (option (result (list Z))) :=
   if negb (t_server ts) || (ptype <=? highest_userauth) then Ok None
   else match is_authenticated ts with
        | Raise x => Raise x
        | Ok true => Ok None
        | Ok false =>
-           if ptype =? 80 then Ok (Some (encode_all [FByte 82]))
-           else if ptype =? 90 then
-             Ok (Some (encode_all [FByte 92; FU32 chanid; FU32 1; FString []; FString s_en]))
+           if ptype =? gen_msg_global_request then Ok (Some (encode_all [FByte gen_msg_request_failure]))
+           else if ptype =? gen_msg_channel_open then
+             (* kind = message.get_text(): a UnicodeDecodeError leaves _ensure_authed (and the run loop) *)
+             if negb kind_ok then Raise UnicodeErr
+             else Ok (Some (encode_all [FByte gen_msg_channel_open_failure; FU32 chanid;
+                                        FU32 gen_open_prohibited; FString []; FString s_en]))
            else Ok (Some (Ok []))         (* an empty Message *)
        end.
 
@@ -75,15 +81,15 @@ Definition kill ts := set_auth ts (set_active (t_auth ts) false).
 
 (* the handlers of types 80 / 81 / 82 / 90 / 91 / 92 once allowed to run (abstract) *)
 Definition conn_handler (ts : tstate) (ptype : Z) (app_ok : bool) : tstate * list tout :=
-  if t_server ts && (ptype =? 80) then (ts, [TCallback 80])
-  else if t_server ts && (ptype =? 90) then
+  if t_server ts && (ptype =? gen_msg_global_request) then (ts, [TCallback ptype])
+  else if t_server ts && (ptype =? gen_msg_channel_open) then
     (* my_chanid = self._next_channel() is taken before the application is asked *)
     let id := t_next ts in
     if app_ok then
       (mkT (t_server ts) (t_auth ts) (id :: t_chans ts) (id :: t_seen ts) (id + 1),
-       [TCallback 90; TChannelCreated id])
+       [TCallback ptype; TChannelCreated id])
     else (mkT (t_server ts) (t_auth ts) (t_chans ts) (t_seen ts) (id + 1),
-          [TCallback 90])                (* refused by the application; reply not modelled *)
+          [TCallback ptype])                (* refused by the application; reply not modelled *)
   else (ts, [THandler ptype]).
 
 Section Loop.
@@ -105,9 +111,9 @@ Definition loop_step (ts : tstate) (p : packet) (e : env) : tstate * list tout :
           if t_server ts then
             let '(a', o) := auth_step sig_ok sid (t_auth ts) m e in (set_auth ts a', map TAuth o)
           else (ts, [TUnhandled])            (* client-side auth handler: not modelled here *)
-      | PConn pt chanid app_ok =>
+      | PConn pt chanid app_ok kind_ok =>
           if zmem pt handler_types then
-            match ensure_authed ts pt chanid with
+            match ensure_authed ts pt chanid kind_ok with
             | Raise x => (kill ts, [TRaise x])
             | Ok (Some (Ok [])) => (kill ts, [TRaise IndexErr])   (* send_message(empty): data[0] *)
             | Ok (Some reply) => (ts, [TReply reply])
